@@ -42,12 +42,20 @@ func (fg *FG) run() (err error) {
 		pkg = p
 	}
 	// parameters and free variables
-	for _, p := range fn.Params {
-		n := "p." + sanitize(p.Name())
+	for i, p := range fn.Params {
+		pname := p.Name()
+		if pname == "_" || pname == "" {
+			// blank parameters: the name the contract's params clause gives them, else a positional one
+			pname = fmt.Sprintf("_%d", i)
+			if i < len(c.Params) && c.Params[i] != "_" {
+				pname = c.Params[i]
+			}
+		}
+		n := "p." + sanitize(pname)
 		fg.declare(n, fg.sorts.sortOf(p.Type()))
 		v := Val{T: n, Ty: p.Type()}
 		fg.vals[p] = v
-		fg.params[p.Name()] = v
+		fg.params[pname] = v
 		fg.assumeTyped(v, st)
 	}
 	for _, f := range fn.FreeVars {
